@@ -17,8 +17,9 @@ def walk(c, rep, prop, cfg):
     it = iter(segs)
     pool = [None] * 4; pool2 = [None] * 2; writes = {}
     pub = dict(config=cfg, **c.pub())
+    hasid = acc in ('st', 'px')
     def comp(h, es, pv, accid):
-        return dict(h=h, e=list(es), s=V.spec_strides(kind, sp, pat, list(es), c.str, pv), acc=accid)
+        return dict(h=(0 if acc == 'eh' else h), e=list(es), s=V.spec_strides(kind, sp, pat, list(es), c.str, pv), acc=accid)
     def bad(k, **kw):
         rep.violation(dict(kind=k, impl=c.impl[:600], **kw, **pub)); return False
     for cmd in c.seq:
@@ -28,9 +29,9 @@ def walk(c, rep, prop, cfg):
             if kind == 'stride':
                 if next(it, None) != 'no-ctor': return bad('constructor-from-extents-exists-for-layout_stride', cmd=cmd)
                 continue
-            pool[int(a[1])] = comp(int(a[2]), c.ext, None, 0 if acc == 'st' else -1); continue
-        if op == 'cmp': pool[int(a[1])] = comp(int(a[2]), c.ext, c.pv, 0 if acc == 'st' else -1); continue
-        if op == 'cma': pool[int(a[1])] = comp(int(a[2]), c.ext, c.pv, int(a[3]) if acc == 'st' else -1); continue
+            pool[int(a[1])] = comp(int(a[2]), c.ext, None, 0 if hasid else -1); continue
+        if op == 'cmp': pool[int(a[1])] = comp(int(a[2]), c.ext, c.pv, 0 if hasid else -1); continue
+        if op == 'cma': pool[int(a[1])] = comp(int(a[2]), c.ext, c.pv, int(a[3]) if hasid else -1); continue
         if op in ('cp', 'mv'): pool[int(a[1])] = dict(pool[int(a[2])]) if pool[int(a[2])] else None; continue
         if op in ('as', 'ma', 'sw'):
             i, j = int(a[1]), int(a[2])
@@ -67,19 +68,25 @@ def walk(c, rep, prop, cfg):
         if op == 'at':
             v = pool[int(a[1])]
             idx = [] if a[4] == '-' else [int(x) for x in a[4].split(',')]
-            off = sum(i * s for i, s in zip(idx, v['s'])); addr = v['h'] + off
+            off = sum(i * s for i, s in zip(idx, v['s'])) + (1 if kind == 'ulog' else 0)
+            if kind == 'urev': off = C.prod(v['e']) - 1 - off
+            addr = v['h'] + off + (1000 if acc == 'sh' else 0)
             d = dict(x.split('=') for x in seg.split()) if seg.startswith('a=') else {}
             if prop == 'C03':
                 if 'a' not in d: return bad('access-form-unavailable-or-undefined', cmd=cmd, got=seg)
                 if int(d['a']) != addr: return bad('access-designates-another-element-than-data_handle()[mapping()(idx)]', cmd=cmd, got=int(d['a']), specified=addr, form=a[2], index_type=a[3])
-                if acc == 'st' and (d.get('log') != '%d,%d' % (v['h'], off) or d.get('n') != '1'):
+                if kind == 'ulog' and d.get('ix', '-') != (','.join(str(x) for x in idx) or '-'):
+                    return bad('mapping-did-not-receive-static_cast<index_type>(indices)...-in-order', cmd=cmd, got=d.get('ix'), specified=idx)
+                if hasid and (d.get('log') != '%d,%d' % (v['h'], off) or d.get('n') != '1'):
                     return bad('access-is-not-exactly-one-accessor.access(data_handle(), mapping()(idx))', cmd=cmd, got=seg, specified='log=%d,%d n=1' % (v['h'], off))
                 span = 1 + sum((e - 1) * s for e, s in zip(v['e'], v['s']))
-                if not (v['h'] <= addr < v['h'] + span): return bad('access-outside-[data_handle(),data_handle()+required_span_size())', cmd=cmd)
+                if kind != 'ulog' and acc != 'sh' and not (v['h'] <= addr < v['h'] + span): return bad('access-outside-[data_handle(),data_handle()+required_span_size())', cmd=cmd)
             continue
         if op == 'df':
             if op == 'df' and c.purpose == 'C03' and 'write' in c.meta:
-                v = pool[0]; ix, val = c.meta['write']; addr = v['h'] + sum(i * s for i, s in zip(ix, v['s']))
+                v = pool[0]; ix, val = c.meta['write']; woff = sum(i * s for i, s in zip(ix, v['s'])) + (1 if kind == 'ulog' else 0)
+                if kind == 'urev': woff = C.prod(v['e']) - 1 - woff
+                addr = v['h'] + woff + (1000 if acc == 'sh' else 0)
                 if prop == 'C03' and seg != 'df=%d:%d' % (addr, val): return bad('write-through-the-view-did-not-touch-exactly-its-element', got=seg, specified='df=%d:%d' % (addr, val))
             elif prop == 'C11' and seg != 'df=-': return bad('construction/copy/move/assign/swap-wrote-to-the-elements', got=seg)
             continue
@@ -108,8 +115,11 @@ def check(prop, tier, seed, replay=None):
             kv = dict(x.split('=', 1) for x in replay['line'].split() if '=' in x)
             f = lambda s: [] if s in (None, '-') else [int(x) for x in s.split(',')]
             cases = [V.VCase(inst, f(kv.get('ext')), f(kv['str']) if 'str' in kv else None, int(kv['pv']) if 'pv' in kv else None, kv['seq'].split('/'), replay['purpose'], replay.get('meta'))]
-        V.run_cases(cases, exe)
-        for c in cases:
+        run = cases
+        if '17' in cfg.split('-')[0]:      # std::span forms exist from C++20 on (README)
+            run = [c for c in cases if not any(x.startswith(('csd:', 'csa:')) or ':span:' in x for x in c.seq)]
+        V.run_cases(run, exe)
+        for c in run:
             rep.cov['evaluations'] += len(c.seq); rep.cov['traces_validated_against_impl'] += 1
             if len(c.ext) >= 1: rep.nontrivial(c.line())
             if c.impl != c.model:
